@@ -193,3 +193,50 @@ def mutants(ids, seed):
                 f.write('%-4s %-44s %s  %s\n' % r)
             f.write('%d/%d caught\n' % (caught, len(rows)))
     return 0 if caught == len(rows) else (rc or 1)
+
+
+def seeded(ids, seed):
+    """every kept seeded change (seeded/<id>/patch.diff, written by sub-agents that saw only the property text) must be caught by the
+    check of its property, on a scratch copy of the lark package, within the budget"""
+    import glob
+    ids = [i.upper() for i in ids]
+    budget = os.environ.get('VERIF_MUTANT_BUDGET_S', '75')
+    rows = []
+    for d in sorted(glob.glob(os.path.join(core.VERIF, 'seeded', '*'))):
+        name = os.path.basename(d)
+        prop = name.split('-')[0]
+        if ids and prop not in ids:
+            continue
+        scratch = tempfile.mkdtemp(prefix='verif-seeded-')
+        outdir = tempfile.mkdtemp(prefix='verif-seeded-out-')
+        try:
+            shutil.copytree(os.path.join(core.REPO, 'lark'), os.path.join(scratch, 'lark'), ignore=shutil.ignore_patterns('__pycache__'))
+            r = subprocess.run(['git', 'apply', '--unsafe-paths', '--directory=' + scratch, os.path.join(d, 'patch.diff')], capture_output=True, text=True, cwd=scratch)
+            if r.returncode != 0:
+                r = subprocess.run(['patch', '-p1', '-i', os.path.join(d, 'patch.diff')], capture_output=True, text=True, cwd=scratch)
+            if r.returncode != 0:
+                rows.append((prop, name, 'PATCH-DOES-NOT-APPLY', (r.stderr or r.stdout)[-120:].replace('\n', ' ')))
+                print('%-4s %-58s %s  %s' % rows[-1])
+                continue
+            env = dict(os.environ)
+            env.update(LARK_REPO=scratch, VERIF_OUT_DIR=outdir, VERIF_SEED=str(seed))
+            env.pop('VERIF_REEXECED', None)
+            t0 = time.time()
+            r = subprocess.run([os.path.join(core.VERIF, 'check'), prop, '--tier', 'quick', '--budget', budget], capture_output=True, text=True, env=env, timeout=2400)
+            caught = r.returncode == 1 and ('VIOLATION property=%s' % prop) in r.stdout
+            kind = next((l.split(' ', 2)[1] for l in r.stdout.splitlines() if l.startswith('violation kind=')), '')
+            rows.append((prop, name, 'caught' if caught else 'MISSED (exit %d)' % r.returncode, '%s in %.0fs' % (kind, time.time() - t0)))
+        finally:
+            shutil.rmtree(scratch, ignore_errors=True)
+            shutil.rmtree(outdir, ignore_errors=True)
+        print('%-4s %-58s %s  %s' % rows[-1])
+        sys.stdout.flush()
+    n = sum(1 for r in rows if r[2] == 'caught')
+    print('selftest-seeded: %d/%d caught' % (n, len(rows)))
+    if not ids and not os.environ.get('VERIF_OUT_DIR'):
+        with open(os.path.join(core.VERIF, 'evidence', 'selftest-seeded.txt'), 'w') as f:
+            f.write('selftest-seeded, budget %s s per change, lark tree %s\n' % (budget, core.lark_tree_digest()[:16]))
+            for r in rows:
+                f.write('%-4s %-58s %s  %s\n' % r)
+            f.write('%d/%d caught\n' % (n, len(rows)))
+    return 0 if n == len(rows) else 1
